@@ -26,7 +26,7 @@ CHECKS = {
  "C02": dict(
     level="exploration", design="2/C02",
     technique="runtime monitoring with crash attribution: catch_unwind + child processes whose signal handler names the (case, phase) that aborted; logical-step hang oracles (reads past EOF, polls without wake-up); Miri/ASan layers",
-    text="The quantifier's input families are executed literally: every <=2-byte tail and a 1M-sample (thorough: all 2^24) of 3-byte tails after a valid header, the full tag x length x fill x truncation grid (also straight into IppValue::parse), all with-language inner-length pairs, every token sequence up to length 4 (thorough 5) over the 16-token alphabet, seeded grammar-aware mutations, every tag with every 1-byte body and selected 2-byte bodies, every tag with periodic self-describing bodies (a short word such as 00 00 00 7f repeated to 12 B..64 KiB, run on a 2 MiB stack), every pair of 24 lengths (0..4097) as consecutive names / values / member names / member values, and 14 structural bomb families up to 1 MiB with each phase (parse, display, debug, encode, traverse, clone+eq, drop) in its own process. Both parsers run on every input; any panic, abort, stack overflow, read loop past EOF or unproductive poll loop is a violation carrying the input. The recorded stack overflows of post-parse recursion on deeply nested collections are listed known findings (exact family+phase signatures); anything else still fails the check.",
+    text="The quantifier's input families are executed literally: every <=2-byte tail and a 1M-sample (thorough: all 2^24) of 3-byte tails after a valid header, the full tag x length x fill x truncation grid (also straight into IppValue::parse), all with-language inner-length pairs, every token sequence up to length 4 (thorough 5) over the 16-token alphabet, seeded grammar-aware mutations, every tag with every 1-byte body and selected 2-byte bodies, every tag with periodic self-describing bodies (a short word such as 00 00 00 7f repeated to 12 B..64 KiB, run on a 2 MiB stack), every pair of 24 lengths (0..4097) as consecutive names / values / member names / member values, names of 21845..65535 undecodable octets, and 14 structural bomb families up to 1 MiB with each phase (parse, display, debug, encode, traverse, clone+eq, drop) in its own process. Both parsers run on every input; any panic, abort, stack overflow, read loop past EOF or unproductive poll loop is a violation carrying the input. The recorded stack overflows of post-parse recursion on deeply nested collections are listed known findings (exact family+phase signatures); anything else still fails the check.",
     note="8 MiB case-thread stack; hang decided on logical steps, wall clock only as watchdog (inconclusive). Inputs not executed are not covered."),
  "C04": dict(
     level="exploration", design="2/C04",
@@ -51,12 +51,12 @@ CHECKS = {
  "C09": dict(
     level="exploration", design="2/C09",
     technique="runtime monitor: positional oracle on the reference decoder's reading of to_bytes(), each program rebuilt many times with fresh randomly keyed maps",
-    text="Every builder/constructor program of C10 (or a raw request/response) followed by 0..6 shuffled further additions (vocabulary incl. job-id, job-uri and the header attributes) is rebuilt 32 (thorough 256) times; in every instance the operation group must come first with attributes-charset 1st, attributes-natural-language 2nd, printer-uri or job-uri 3rd and job-id 4th (printer-uri + job-id). How many cases showed more than one order of the unconstrained attributes across the rebuilt instances is reported as evidence (a sorting encoder legitimately shows one).",
+    text="Every builder/constructor program of C10 (or a raw request/response) followed by 0..6 shuffled further additions (vocabulary incl. job-id, job-uri, the header attributes and every RFC 8011 operation attribute name) is rebuilt 32 (thorough 256) times; in every instance the operation group must come first with attributes-charset 1st, attributes-natural-language 2nd, printer-uri or job-uri 3rd and job-id 4th (printer-uri + job-id). How many cases showed more than one order of the unconstrained attributes across the rebuilt instances is reported as evidence (a sorting encoder legitimately shows one).",
     note="printer-uri together with job-uri is not generated (undefined by RFC 8011)."),
  "C10": dict(
     level="exploration", design="2/C10",
     technique="runtime monitor: reference-model oracle (per-operation reference request) vs the built request, in memory and as decoded from its bytes by the reference decoder",
-    text="Random builder programs over the 10 operations (builders and operation structs), with repeated setters, arbitrary UTF-8 arguments, boundary job ids, 0/1/n requested attributes, G5 target URIs and G1 job attribute values with recurring (name, value) pairs (x, y, x) under a pool of 44 attribute names (job-template names, document/operation attribute names a library might special-case, the header attribute names, look-alikes) plus arbitrary strings, are executed against the library and compared with a reference request (registry operation code, version 1.1, positive request-id, exactly the expected attributes with the stated syntaxes in the right group, last-wins for extras, payload bytes); plus the raw constructors over every registered operation and status.",
+    text="Random builder programs over the 10 operations (builders and operation structs), with repeated setters, arbitrary UTF-8 arguments, boundary job ids, 0/1/n requested attributes, G5 target URIs and G1 job attribute values with recurring (name, value) pairs (x, y, x) under a pool of 44 attribute names (job-template names, document/operation attribute names a library might special-case, the header attribute names, look-alikes) plus arbitrary strings, are executed against the library and compared with a reference request (registry operation code, version 1.1, positive request-id, exactly the expected attributes with the stated syntaxes in the right group, last-wins for extras, payload bytes); plus the raw constructors over every registered operation and every status the library has a symbol for (header and wire octets).",
     note="Reference canonical printer-uri comes from the harness's own URI splitter (C13's oracle)."),
  "C13": dict(
     level="exploration", design="2/C13",
@@ -77,12 +77,12 @@ CHECKS = {
  "C15": dict(
     level="exploration", design="2/C15",
     technique="runtime cost monitoring on deterministic step measures: counting global allocator (bytes, calls) and cachegrind instruction counts over doubling input families; incremental-ratio oracle",
-    text="27 doubling families plus a hash-flood family (nesting with/without member names and with multi-valued members, set width with one tag, with eight alternating tags at top level and inside a collection member, and with distinct keyword strings, set of collections, one wide collection followed by many small ones, thousands of attributes or members sharing one or three names, a wide set led by thousands of no-value entries, attribute/group/member count in ascending, descending and shuffled name order, value/name length, invalid-UTF-8 names and values, four malformed floods), both parsers, sizes 2 KiB to 256 KiB (thorough 1 MiB) for the allocation measure and 4 KiB to 64 KiB (thorough 1 MiB) under cachegrind. For consecutive doublings the incremental ratio (c(4n)-c(2n))/(c(2n)-c(n)) must stay <= 2.6 (n log n passes, quadratic gives 4) and allocated bytes <= 256 KiB + 1024 n. Wall clock is never a verdict; a series stops at its first violating doubling so a quadratic tree is reported at KiB sizes within seconds.",
+    text="31 doubling families plus a hash-flood family (nesting with/without member names and with multi-valued members, set width with one tag, with eight alternating tags at top level and inside a collection member, and with distinct keyword strings, set of collections, one wide collection followed by many small ones, thousands of attributes or members sharing one or three names, a wide set led by thousands of no-value entries, long text / keyword / text-with-language values, a long run of other groups followed by as many operation-group delimiters, attribute/group/member count in ascending, descending and shuffled name order, value/name length, invalid-UTF-8 names and values, four malformed floods), both parsers, sizes 2 KiB to 256 KiB (thorough 1 MiB) for the allocation measure and 4 KiB to 64 KiB (thorough 1 MiB) under cachegrind. For consecutive doublings the incremental ratio (c(4n)-c(2n))/(c(2n)-c(n)) must stay <= 2.6 (n log n passes, quadratic gives 4) and allocated bytes <= 256 KiB + 1024 n. Wall clock is never a verdict; a series stops at its first violating doubling so a quadratic tree is reported at KiB sizes within seconds.",
     note="Instruction counts include process start-up and input generation (linear, cancelled by the incremental ratio). Only the families listed are covered."),
  "C16": dict(
     level="exploration", design="2/C16",
     technique="runtime monitor by complete enumeration of the finite code domains against registry tables embedded in the harness (exhaustive: true)",
-    text="All 65536 16-bit values go through StatusCode::from_u16, IppHeader::status_code, is_success and Operation::from_u16, all 256 bytes through the delimiter and value tag enums, -4..65535 through the five attribute enums, the tag emitted for every value kind is compared with the registry, every value decoded from each of the 256 tag bytes over 74 bodies must be emitted with the same tag, and every registered value of the five attribute enums must decode (except 15 finishings the pinned library does not have: unjudged). A registered code must give the variant the registry names for it, any other code 'unknown' or a symbol naming no registered code (a code missing from the harness's tables is unjudged unless its symbol is the registry's name for a different code, so that correct table extensions do not alarm), success for the RFC 8011 successful codes and never for a code above 0x00ff (0x0003-0x00ff left open, as the property does), and every variant must cast back to the integer it was decoded from. The domain is finite and enumerated completely on every run.",
+    text="All 65536 16-bit values go through StatusCode::from_u16, IppHeader::status_code, is_success and Operation::from_u16, all 256 bytes through the delimiter and value tag enums, -4..65535 through the five attribute enums, the tag emitted for every value kind is compared with the registry, every value decoded from each of the 256 tag bytes over 74 bodies must be emitted with the same tag, every byte the parser accepts in delimiter position must be reported and re-emitted as itself, and every registered value of the five attribute enums must decode (except 15 finishings the pinned library does not have: unjudged). A registered code must give the variant the registry names for it, any other code 'unknown' or a symbol naming no registered code (a code missing from the harness's tables is unjudged unless its symbol is the registry's name for a different code, so that correct table extensions do not alarm), success for the RFC 8011 successful codes and never for a code above 0x00ff (0x0003-0x00ff left open, as the property does), and every variant must cast back to the integer it was decoded from. The domain is finite and enumerated completely on every run.",
     note="Trusted: the registry tables typed in from RFC 8010/8011, PWG 5100.1 and the CUPS specification; identifier comparison is modulo case and punctuation with listed aliases."),
  "C17": dict(
     level="exploration", design="2/C17",
@@ -92,7 +92,7 @@ CHECKS = {
  "C19": dict(
     level="exploration", design="2/C19",
     technique="model-based runtime monitor: ordered reference model stepped in lock-step with IppAttributes::add, compared after every operation; iterator traversal vs model",
-    text="All add-sequences of length <= 4 (thorough 5) over a 16-operation alphabet (4 group kinds x 2 names x 2 values), and of length <= 3 over two more alphabets (the specially treated names; names differing only in letter case / the empty name x scalar / empty set) are run from the empty container and from two parser-produced containers with repeated and empty groups, comparing groups(), groups_of(kind) for all kinds after every add and into_groups() at the end with a Vec-based model; random sequences of up to 200 adds with G1 values extend this. Value traversal is compared with the model (set in order, collection in member-name order, scalar once, then None thrice) for every kind, wide and empty containers and random values.",
+    text="All add-sequences of length <= 4 (thorough 5) over a 16-operation alphabet (4 group kinds x 2 names x 2 values), and of length <= 3 over two more alphabets (the specially treated names; names differing only in letter case / the empty name x scalar / empty set) are run from the empty container and from two parser-produced containers with repeated and empty groups, comparing groups(), groups_of(kind) for all kinds after every add and into_groups() at the end with a Vec-based model; random sequences of up to 200 adds with G1 values extend this. Value traversal is compared with the model (set in order, collection in member-name order, scalar once, then None thrice; the same order through nth after j next() calls, skip, step_by, count, last and size_hint) for every kind, wide and empty containers and random values.",
     note="Enumeration is complete for the stated alphabet and lengths; beyond that sampling."),
 
  "C20": dict(
@@ -109,12 +109,12 @@ CHECKS = {
  "C12": dict(
     level="exploration", design="2/C12",
     technique="runtime monitoring of a complete configuration matrix against a loopback rustls peer with freshly generated CAs; oracle on send() outcome and on decrypted bytes seen by the peer application (exhaustive: true)",
-    text="The finite matrix {blocking, async} x {native-tls, rustls} x ignore flag {unset, false, true} x extra root {none, correct PEM, correct DER, correct PEM with CRLF line endings, unrelated} x server certificate {valid, wrong host, expired, self-signed, unknown CA} x a second, tiny Ed25519 root family (DER shorter than 256 bytes and ending in a 0x0a octet) and a leaf that expired seconds before the run = 588 cells on the two uniform builds, plus the two mixed-backend builds (blocking native-tls + async rustls, blocking rustls + async native-tls: a 36-cell sub-matrix each in quick, the full matrix in thorough), the target spelled ipps:// or https:// (quick: one spelling per cell chosen by cell hash and seed; thorough: both) is executed completely on every run (four harness builds: both clients on native-tls, both on rustls, and the two mixed feature sets). A cell must accept exactly when the caller opted out or supplied the correct root for a valid leaf; in every rejected cell the peer application must not have received a single decrypted byte. Thorough repeats the matrix against TLS 1.2-only and 1.3-only peers.",
+    text="The finite matrix {blocking, async} x {native-tls, rustls} x ignore flag {unset, false, true} x extra root {none, correct PEM, correct DER, correct PEM with CRLF line endings, correct PEM behind its openssl text dump, unrelated} x server certificate {valid, wrong host, expired, self-signed, unknown CA} x a second, tiny Ed25519 root family (DER shorter than 256 bytes and ending in a 0x0a octet) and a leaf that expired seconds before the run = 672 cells on the two uniform builds, plus the two mixed-backend builds (blocking native-tls + async rustls, blocking rustls + async native-tls: a 36-cell sub-matrix each in quick, the full matrix in thorough), the target spelled ipps:// or https:// (quick: one spelling per cell chosen by cell hash and seed; thorough: both) is executed completely on every run (four harness builds: both clients on native-tls, both on rustls, and the two mixed feature sets). A cell must accept exactly when the caller opted out or supplied the correct root for a valid leaf; in every rejected cell the peer application must not have received a single decrypted byte. Thorough repeats the matrix against TLS 1.2-only and 1.3-only peers.",
     note="Certificates are generated with the openssl CLI at check time; trust decisions are those of the OpenSSL / rustls versions in this image."),
  "C18": dict(
     level="exploration", design="2/C18",
     technique="runtime monitoring of the real ipputil binary (built from /repo/util) as a child process against the scripted loopback peer: offline checker over the peer event log and the exit status",
-    text="ipputil print is run with generated command lines (file or stdin documents of 0 B to MiBs of arbitrary bytes, optional job and user names, options over every textual class incl. i32 boundaries, values containing '=' and empty values, -n on/off, extra headers, http and ipp targets) against scripted printers (state, reasons, IPP status of each reply, HTTP errors). A deterministic prefix of 140 scenarios runs every registered non-successful status on the state query and on Print-Job, HTTP errors on either exchange, every blocking reason alone and at each position of a set (also behind 'none'), stopped/idle/processing states, -n against blocked printers, and carries one of 40 tricky option values each (booleans with case/space variants, i32 boundaries and overflow, leading zeros, values containing '=' and ',', empty and blank values). The checker derives the expected exchange sequence, compares the submitted document byte-for-byte, the typing of every option with a reference text classifier, the name attributes, the extra headers and the exit status.",
+    text="ipputil print is run with generated command lines (file or stdin documents of 0 B to MiBs of arbitrary bytes, optional job and user names, options over every textual class incl. i32 boundaries, values containing '=' and empty values, -n on/off, extra headers, http and ipp targets) against scripted printers (state, reasons, IPP status of each reply, HTTP errors; requested-attributes honoured as RFC 8011 4.2.5 prescribes). A deterministic prefix of 140 scenarios runs every registered non-successful status on the state query and on Print-Job, HTTP errors on either exchange, every blocking reason alone and at each position of a set (also behind 'none'), stopped/idle/processing states, -n against blocked printers, and carries one of 40 tricky option values each (booleans with case/space variants, i32 boundaries and overflow, leading zeros, values containing '=' and ',', empty and blank values). The checker derives the expected exchange sequence, compares the submitted document byte-for-byte, the typing of every option with a reference text classifier, the name attributes, the extra headers and the exit status.",
     note="Exit status after a not-ready refusal is recorded, not judged. 140 scenario + 60 random runs quick, 140 + 2000 thorough. Status codes 0x0003-0x00ff are not scripted (C16 leaves their class open)."),
 }
 
@@ -155,7 +155,7 @@ def main():
         }],
         "checks": checks,
         "not_applicable": [{"property_id": p, "reason": REASON_TODO} for p in ALL if p not in CHECKS],
-        "notes": "Technique family: runtime monitoring and sanitizers. Thorough tiers of C01-C08 and C19 add Miri, AddressSanitizer and (C01-C07, C19) a coverage-guided libFuzzer layer whose crash oracle is the property's own monitor; C11 thorough adds ThreadSanitizer; C15 uses cachegrind. Exit codes: 0 held (or only listed known findings), 1 violation with replay file, 2 inconclusive (never a VIOLATION line). Known findings: /verif/known_findings.txt.",
+        "notes": "Technique family: runtime monitoring and sanitizers. Every monitor binary installs an all-levels sink logger so that the arguments of the library's log macros are evaluated (except the C15 cost measurements). Thorough tiers of C01-C08 and C19 add Miri, AddressSanitizer and (C01-C07, C19) a coverage-guided libFuzzer layer whose crash oracle is the property's own monitor; C11 thorough adds ThreadSanitizer; C15 uses cachegrind. Exit codes: 0 held (or only listed known findings), 1 violation with replay file, 2 inconclusive (never a VIOLATION line). Known findings: /verif/known_findings.txt.",
     }
     with open("/verif/MANIFEST.json", "w") as f:
         json.dump(m, f, indent=1)
